@@ -9,6 +9,7 @@ from ..astutil import attr_chain, call_name, calls_in, unparse
 from ..cfg import CFG, CNode, Edge, LocalDefs, path_text
 from ..index import AnalysisError, ClassInfo, FuncInfo
 from ..inventory import call_sites, recv_class
+from ..inventory import only_called_from
 from ..report import Ctx
 from .common import node_calls, nodes_calling
 
@@ -203,9 +204,11 @@ def r6_1(ctx: Ctx) -> None:
                    f"calls process_frame and no further zone function ({zc})")
     # who may call process_frame / route_frame
     for cs in call_sites(ix, ["process_frame", "route_frame"]):
-        ok = cs.owner in PROCESS_FRAME_CALLERS
+        via = None if cs.owner in PROCESS_FRAME_CALLERS else only_called_from(ix, cs.fn, PROCESS_FRAME_CALLERS)
+        ok = cs.owner in PROCESS_FRAME_CALLERS or bool(via)
         ctx.record("R6.1", f"{cs.path}::{cs.owner}::calls {call_name(cs.call)}", cs.where, ok,
-                   PROCESS_FRAME_CALLERS.get(cs.owner, "forwarding entered from a function that has not taken an ACL verdict"))
+                   PROCESS_FRAME_CALLERS.get(cs.owner, f"helper called only from {via}" if via else
+                                             "forwarding entered from a function that has not taken an ACL verdict"))
 
 
 def r6_2(ctx: Ctx) -> None:
@@ -242,9 +245,11 @@ def r6_2(ctx: Ctx) -> None:
     n = 0
     for cs in call_sites(ix, ["send_frame"]):
         n += 1
-        ok = cs.owner in SEND_FRAME_CALLERS
+        via = None if cs.owner in SEND_FRAME_CALLERS else only_called_from(ix, cs.fn, SEND_FRAME_CALLERS)
+        ok = cs.owner in SEND_FRAME_CALLERS or bool(via)
         ctx.record("R6.2", f"{cs.path}::{cs.owner}::{unparse(cs.call.func)}", cs.where, ok,
-                   SEND_FRAME_CALLERS.get(cs.owner, "frames emitted from outside the session manager / forwarding plane"))
+                   SEND_FRAME_CALLERS.get(cs.owner, f"helper called only from {via}" if via else
+                                          "frames emitted from outside the session manager / forwarding plane"))
     ctx.floor("R6.2", "send_frame call sites", n, 6)
     # layering for software and file-system modules
     n_mod = 0
